@@ -36,7 +36,7 @@ STRENGTHENED = {
     "C20-F": "session 3: std.parseYaml vs std.parseJson compared with the sign of zero",
 }
 rows = []
-for d in sorted(glob.glob(os.path.join(ROOT, "seeded", "C*-[A-D]"))):
+for d in sorted(glob.glob(os.path.join(ROOT, "seeded", "C*-[A-Z]"))):
     sid = os.path.basename(d)
     prop = sid.split("-")[0]
     am = json.load(open(os.path.join(d, "agent_meta.json"))) if os.path.exists(os.path.join(d, "agent_meta.json")) else {}
@@ -50,7 +50,7 @@ for d in sorted(glob.glob(os.path.join(ROOT, "seeded", "C*-[A-D]"))):
     caught_by = []
     if os.path.exists(os.path.join(d, "check_result.txt")):
         for line in open(os.path.join(d, "check_result.txt")):
-            m = re.match(r"(C\d+) exit=(\d+) signatures: (.*)", line.strip())
+            m = re.match(r"(C\d+) exit=(\d+) signatures:\s*(.*)", line.strip())
             if m:
                 results.append({"check": m.group(1), "exit": int(m.group(2)), "signatures": m.group(3).split()})
                 if m.group(2) == "1":
